@@ -462,6 +462,15 @@ pub fn boundary_instant() -> impl Strategy<Value = i64> {
 		2 => (Y9999_END - 2 * 86400..=Y9999_END),
 		1 => near(0),
 		1 => select(vec![Y0_START, Y1950 - 1, Y1950, Y2050 - 1, Y2050, Y9999_END, 0, 951782400 /* 2000-02-29 */]),
+		// calendar and machine-integer landmarks: 2^31 and 2^32 seconds, century leap rules, ends of
+		// months, the last day of year 9999, the year 1000/10000 digit-count changes, -1 s
+		1 => (select(vec![
+			2147483647i64, 2147483648, 4294967295, 4294967296, -1, -2147483648, -2147483649,
+			-2203891200 /* 1900-03-01 */, 4107542400 /* 2100-03-01 */, 4107456000 /* 2100-02-28 */, 951868800 /* 2000-03-01 */,
+			-30610224000 /* 1000-01-01 */, 253402214400 /* 9999-12-31 */, 253370764800 /* 9999-01-01 */,
+			1709164800 /* 2024-02-29 */, 1735689599 /* 2024-12-31T23:59:59 */, 1483228800 /* 2017-01-01, after a leap second */,
+			-62135596800 /* 0001-01-01 */, -62162035200 /* 0000-03-01 */, -62162121600 /* 0000-02-29 */,
+		]), -2i64..=2).prop_map(|(c, d)| (c + d).clamp(Y0_START, Y9999_END)),
 		6 => (Y0_START..=Y9999_END),
 		3 => (Y1950..Y2050),
 	]
@@ -702,7 +711,13 @@ pub fn idp() -> impl Strategy<Value = Option<IdpSpec>> {
 /// CRL specs whose thisUpdate < nextUpdate by at least one encoded second.
 pub fn crl_spec(plain_times: bool) -> BoxedStrategy<CrlSpec> {
 	let t = if plain_times { time_plain().boxed() } else { time_valid().boxed() };
-	(t, 1i64..100_000_000, nanos(), offset(), int_bytes(21), idp(), vec(revoked(plain_times), 0..6), kid())
+	let entries = prop_oneof![
+		120 => vec(revoked(plain_times), 0..6).boxed(),
+		// enough entries for two- and three-octet lengths around the entry list
+		3 => vec(revoked(plain_times), 120..140).boxed(),
+		1 => vec(revoked(plain_times), 1500..1700).boxed(),
+	];
+	(t, 1i64..100_000_000, nanos(), offset(), int_bytes(21), idp(), entries, kid())
 		.prop_map(|(this_update, delta, n2, off2, crl_number, idp, mut revoked, kid)| {
 			let next_unix = (this_update.unix + delta).min(Y9999_END);
 			let mut this_update = this_update;
